@@ -336,7 +336,8 @@ def warm():
         shutil.rmtree(tmp, ignore_errors=True)
     hs = [d for d in os.listdir(V + '/harness') if d != 'common']
     with WorkCopy('warm', harness=hs) as w:
-        p = sh('go test -tags verif -vet=off -count=1 -run XXX_none ./... 2>&1 | tail -40', cwd=w.src,
+        pk = '. ./exec/ ./frame/ ./sliceio/ ./sortio/ ./metrics/ ./internal/slicecache/ ./slicetest/ ./typecheck/ ./slicefunc/ ./slicetype/'
+        p = sh('go test -tags verif -vet=off -count=1 -run XXX_none %s 2>&1 | tail -40' % pk, cwd=w.src,
                check=False, timeout=1800)
         log(p.stdout)
         if 'FAIL' in (p.stdout or ''):
